@@ -135,8 +135,59 @@ def run(group=None):
                 else:
                     obligations.append(dict(name=f"{g}::isogeny_map.{nm}'" + tag, ok=None,
                                             note="coordinate differs from the specified one but no input was found where the represented points differ"))
+    obligations += image_on_curve(src)
     return dict(obligations=obligations, wall=time.time() - t0, cmd="rustc symx_iso.rs && ./symx_iso (real eval_iso / isogeny_map over a symbolic commutative ring) + factored normal form",
                 lens=lens)
+
+
+def image_on_curve(src):
+    """closed-term identity over the crate's own tables: for every (x, y) with y^2 = x^3 + A'x + B' on the isogenous curve, the image
+    (xnum/xden, y ynum/yden) satisfies Y^2 = X^3 + b, i.e. the polynomial  g(x) ynum^2 xden^3 - (xnum^3 + b xden^3) yden^2  vanishes identically
+    (exact polynomial arithmetic modulo q, coefficient fields Fq and Fq2).  A wrong table entry breaks the identity."""
+    from .refute import F1, F2, Q
+    RINV = pow(1 << 384, -1, Q)
+
+    def vals(mod, name, over):
+        t = src.find_const(mod, name)
+        l = [int(x.replace('u64', '').replace('_', ''), 0) for x in re.findall(r'0x[0-9a-fA-F_]+(?:u64)?', t[t.index('='):])]
+        v = [sum(x << (64 * j) for j, x in enumerate(l[6 * k:6 * k + 6])) * RINV % Q for k in range(len(l) // 6)]
+        return v if over == 1 else [(v[2 * k], v[2 * k + 1]) for k in range(len(v) // 2)]
+    out = []
+    for g, F, over, iso_mods, b in (('G1', F1, 1, 'g1', 4), ('G2', F2, 2, 'g2', (4, 4))):
+        try:
+            # the two `g1` / `g2` modules that hold these constants are isogeny::gN (tables) and osswu_map::gN (curve coefficients)
+            tabs = {nm: vals(iso_mods, nm, over) for nm in ('XNUM', 'XDEN', 'YNUM', 'YDEN')}
+            A = vals(iso_mods, 'ELLP_A', over)[0]
+            B = vals(iso_mods, 'ELLP_B', over)[0]
+        except Exception as e:
+            out.append(dict(name=f"{g}::isogeny_image_on_curve", ok=None, note=f"constants not found: {e}"))
+            continue
+        zero, one = F.zero, F.one
+
+        def padd(a, c):
+            n = max(len(a), len(c))
+            return [F.add(a[i] if i < len(a) else zero, c[i] if i < len(c) else zero) for i in range(n)]
+
+        def pmul(a, c):
+            r = [zero] * (len(a) + len(c) - 1)
+            for i, x in enumerate(a):
+                for j, y in enumerate(c):
+                    r[i + j] = F.add(r[i + j], F.mul(x, y))
+            return r
+
+        def pneg(a):
+            return [F.neg(x) for x in a]
+        gx = [B, A, zero, one]
+        xn, xd, yn, yd = tabs['XNUM'], tabs['XDEN'], tabs['YNUM'], tabs['YDEN']
+        xd3 = pmul(pmul(xd, xd), xd)
+        lhs = pmul(pmul(gx, pmul(yn, yn)), xd3)
+        bb = b if over == 2 else b % Q
+        rhs = pmul(padd(pmul(pmul(xn, xn), xn), [F.mul(bb, c) for c in xd3]), pmul(yd, yd))
+        diff = padd(lhs, pneg(rhs))
+        ok = all(c == zero for c in diff)
+        out.append(dict(name=f"{g}::isogeny_image_on_curve", ok=ok,
+                        **({} if ok else dict(witness=dict(note="the identity g(x) ynum^2 xden^3 == (xnum^3 + b xden^3) yden^2 fails for the tables in the source")))))
+    return out
 
 
 def _eval_node(dag, i, env, Q):
